@@ -27,7 +27,7 @@ Ev == Rec[l]
 Chk(cond, why) == IF cond THEN TRUE ELSE ~PrintT(<<"WHY", l, why>>)
 
 NoIndex == [ok |-> FALSE, st |-> [N |-> 0, T |-> 0, n |-> <<>>], alive |-> {}, segs |-> {}]
-NoCase == [docs |-> <<>>, cuts |-> <<>>, dels |-> {}, vocab |-> {}, fn |-> <<>>]
+NoCase == [docs |-> <<>>, cuts |-> <<>>, dels |-> {}, vocab |-> {}, fields |-> {}, fn |-> <<>>]
 
 TTable ==
   /\ Ev.ev = "table"
@@ -41,11 +41,13 @@ TReset ==
   /\ Ev.ev = "reset"
   /\ Len(tab) = 256
   /\ Ev.filler = Filler /\ Filler \notin SeqToSet(Ev.vocab)
-  /\ \A i \in DOMAIN Ev.docs : SeqToSet(Ev.docs[i].toks) \subseteq SeqToSet(Ev.vocab) /\ Ev.docs[i].pad >= 0
+  \* a document is a record field |-> [toks, pad] over the scored text fields of the case
+  /\ Ev.fields # <<>>
+  /\ {i \in DOMAIN Ev.docs : {f \in SeqToSet(Ev.fields) : ~(SeqToSet(Ev.docs[i][f].toks) \subseteq SeqToSet(Ev.vocab) /\ Ev.docs[i][f].pad >= 0)} # {}} = {}
   /\ SumSeq(Ev.cuts) = Len(Ev.docs) /\ \A i \in DOMAIN Ev.cuts : Ev.cuts[i] >= 1
   /\ SeqToSet(Ev.dels) \subseteq DOMAIN Ev.docs
-  /\ cs' = [docs |-> Ev.docs, cuts |-> Ev.cuts, dels |-> SeqToSet(Ev.dels), vocab |-> SeqToSet(Ev.vocab),
-            fn |-> [i \in DOMAIN Ev.docs |-> NormId(tab, DocLen(Ev.docs[i]))]]
+  /\ cs' = [docs |-> Ev.docs, cuts |-> Ev.cuts, dels |-> SeqToSet(Ev.dels), vocab |-> SeqToSet(Ev.vocab), fields |-> SeqToSet(Ev.fields),
+            fn |-> [i \in DOMAIN Ev.docs |-> [f \in SeqToSet(Ev.fields) |-> NormId(tab, DocLen(Ev.docs[i][f]))]]]
   /\ ix' = [multi |-> NoIndex, single |-> NoIndex, merged |-> NoIndex]
   /\ UNCHANGED tab
 
@@ -53,9 +55,9 @@ SegDocs(s) == [i \in DOMAIN s.docs |-> cs.docs[s.docs[i]]]
 
 SegCommonOk(s, sd) ==
   /\ Chk(s.max_doc = Len(s.docs), "segment: max_doc")
-  /\ Chk(\A w \in cs.vocab : s.df[w] = SegDf(sd, w), "segment: doc_freq")
-  /\ Chk(\A i \in DOMAIN s.docs : s.fnids[i] = cs.fn[s.docs[i]], "segment: fieldnorm id is the largest table entry <= length")
-  /\ Chk(\A i \in DOMAIN s.docs : s.fns[i] = tab[s.fnids[i] + 1], "segment: fieldnorm = table[id]")
+  /\ Chk(\A f \in cs.fields : \A w \in cs.vocab : s.df[f][w] = SegDf(FieldView(sd, f), w), "segment: doc_freq")
+  /\ Chk(\A f \in cs.fields : \A i \in DOMAIN s.docs : s.fnids[f][i] = cs.fn[s.docs[i]][f], "segment: fieldnorm id is the largest table entry <= length")
+  /\ Chk(\A f \in cs.fields : \A i \in DOMAIN s.docs : s.fns[f][i] = tab[s.fnids[f][i] + 1], "segment: fieldnorm = table[id]")
 
 \* a segment written by the indexer
 SegOk(s) ==
@@ -63,7 +65,7 @@ SegOk(s) ==
   /\ SegCommonOk(s, sd)
   /\ Chk(SeqToSet(s.dead) = SeqToSet(s.docs) \cap cs.dels /\ Len(s.dead) = Cardinality(SeqToSet(s.dead)), "segment: deleted documents")
   /\ Chk(s.num_docs = s.max_doc - Len(s.dead), "segment: num_docs")
-  /\ Chk(s.T = SegT(sd), "segment: total_num_tokens")
+  /\ Chk(\A f \in cs.fields : s.T[f] = SegT(FieldView(sd, f)), "segment: total_num_tokens")
 
 \* a segment produced by merging the segments srcs (sequences of document ids, deleted ones included):
 \* the living documents of the sources in order, deletes purged, doc_freq exact, total_num_tokens
@@ -71,16 +73,17 @@ SegOk(s) ==
 AliveIds(src) == SelectSeq(src, LAMBDA d : d \notin cs.dels)
 RECURSIVE Concat(_)
 Concat(ss) == IF ss = <<>> THEN <<>> ELSE Head(ss) \o Concat(Tail(ss))
-SrcEntries(src) == [i \in DOMAIN src |-> [doc |-> cs.docs[src[i]], alive |-> src[i] \notin cs.dels]]
+SrcEntries(src, f) == [i \in DOMAIN src |-> [doc |-> cs.docs[src[i]][f], alive |-> src[i] \notin cs.dels]]
 MergedSegOk(s, srcs) ==
   LET sd == SegDocs(s)
-      entries == [k \in DOMAIN srcs |-> SrcEntries(srcs[k])]
+      entries(f) == [k \in DOMAIN srcs |-> SrcEntries(srcs[k], f)]
   IN  /\ Chk(s.docs = Concat([k \in DOMAIN srcs |-> AliveIds(srcs[k])]), "merge: the merged segment is not the living documents of its sources")
       /\ SegCommonOk(s, sd)
       /\ Chk(s.dead = <<>> /\ s.num_docs = s.max_doc, "merge: deleted documents were not purged")
-      /\ IF \A k \in DOMAIN entries : ~HasDeletes(entries[k])
-            THEN Chk(s.T = SegT(sd), "merge: total_num_tokens of the merged segment is not the exact token count (no deletes)")
-          ELSE Chk(MergedTLower(tab, entries) <= s.T /\ s.T <= MergedTUpper(entries), "merge: total_num_tokens outside the documented estimate (deletes)")
+      /\ IF \A k \in DOMAIN srcs : SeqToSet(srcs[k]) \cap cs.dels = {}
+            THEN Chk(\A f \in cs.fields : s.T[f] = SegT(FieldView(sd, f)), "merge: total_num_tokens of the merged segment is not the exact token count (no deletes)")
+          ELSE Chk(\A f \in cs.fields : MergedTLower(tab, entries(f)) <= s.T[f] /\ s.T[f] <= MergedTUpper(entries(f)),
+                   "merge: total_num_tokens outside the documented estimate (deletes)")
 
 \* The segments of an index partition the corpus into runs of consecutive documents (the cuts of
 \* the case say where the harness committed; the writer may flush more often, which the property
@@ -98,7 +101,7 @@ TIndex ==
          /\ \A k \in DOMAIN Ev.segs : SegOk(Ev.segs[k])
          /\ ix' = [ix EXCEPT ![Ev.ix] =
                      [ok |-> TRUE,
-                      st |-> Stats([k \in DOMAIN Ev.segs |-> SegDocs(Ev.segs[k])], cs.vocab),
+                      st |-> StatsF([k \in DOMAIN Ev.segs |-> SegDocs(Ev.segs[k])], cs.fields, cs.vocab),
                       alive |-> present \ cs.dels,
                       segs |-> {Ev.segs[k].docs : k \in DOMAIN Ev.segs}]]
   /\ UNCHANGED <<tab, cs>>
@@ -118,16 +121,16 @@ TMerged ==
          /\ Chk(present \ cs.dels = ix.multi.alive, "merge: the living documents changed")
          /\ ix' = [ix EXCEPT !.merged =
                      [ok |-> TRUE,
-                      st |-> [Stats([k \in DOMAIN Ev.segs |-> SegDocs(Ev.segs[k])], cs.vocab)
-                                EXCEPT !.T = SumSeq([k \in DOMAIN Ev.segs |-> Ev.segs[k].T])],
+                      st |-> [StatsF([k \in DOMAIN Ev.segs |-> SegDocs(Ev.segs[k])], cs.fields, cs.vocab)
+                                EXCEPT !.T = [f \in cs.fields |-> SumSeq([k \in DOMAIN Ev.segs |-> Ev.segs[k].T[f]])]],
                       alive |-> present \ cs.dels,
                       segs |-> {}]]
   /\ UNCHANGED <<tab, cs>>
 
 RECURSIVE QueryOk(_)
 QueryOk(q) ==
-  CASE q.k = "term" -> q.w \in cs.vocab
-    [] q.k = "phrase" -> Len(q.ws) >= 2 /\ SeqToSet(q.ws) \subseteq cs.vocab
+  CASE q.k = "term" -> q.w \in cs.vocab /\ Fld(q) \in cs.fields
+    [] q.k = "phrase" -> Len(q.ws) >= 2 /\ SeqToSet(q.ws) \subseteq cs.vocab /\ Fld(q) \in cs.fields
     [] q.k = "boost" -> IsPosFinite([hi |-> q.b[1], lo |-> q.b[2]]) /\ QueryOk(q.q)
     [] q.k = "const" -> IsPosFinite([hi |-> q.c[1], lo |-> q.c[2]]) /\ QueryOk(q.q)
     [] q.k = "dismax" -> /\ q.tie[1] \in 0..16256 /\ (q.tie[1] = 16256 => q.tie[2] = 0)   \* 0 <= tie <= 1
@@ -138,10 +141,8 @@ QueryOk(q) ==
 \* two observations of the score of one document whose symbolic term is t
 Agree(a, b, t) == IF Leaves(t) = 1 THEN SameBits(a, b) ELSE Within(a, b, Tol(t))
 
-HitOkD(q, h, st, d, fnid) ==
-  LET t == ScoreTerm(q, d, st, <<>>, fnid)
-  IN  /\ Chk(\A w \in cs.vocab : h.tfs[w] = Tf(d, w), "hit: term frequencies")
-      /\ Chk(h.fnid = fnid, "hit: fieldnorm id")
+\* what every observed hit must satisfy once its symbolic term t is known
+ScoresOk(h, t) ==
       /\ Chk(IsSome(t) /\ h.term = t, "hit: the kernel was not evaluated on the symbolic term of the specification")
       /\ Chk("kernel" \in DOMAIN h /\ IsPosFinite(h.kernel) /\ IsPosFinite(h.coll), "hit: scores are positive finite")
       /\ Chk(Agree(h.kernel, h.coll, t), "score: collector differs from BM25 over the searcher statistics")
@@ -154,7 +155,20 @@ HitOkD(q, h, st, d, fnid) ==
                  THEN Chk(SameBits(h.expl, h.coll), "explain: boosted explain differs from score (single boosted clause)")
                ELSE Chk(Within(h.expl, h.coll, Tol(t)), "explain: differs from score beyond rounding")
 
-HitOk(q, h, st) == HitOkD(q, h, st, cs.docs[h.doc], cs.fn[h.doc])
+\* the single-field hit of the big cases
+HitOkD(q, h, st, d, fnid) ==
+  /\ Chk(\A w \in cs.vocab : h.tfs[w] = Tf(d, w), "hit: term frequencies")
+  /\ Chk(h.fnid = fnid, "hit: fieldnorm id")
+  /\ ScoresOk(h, ScoreTerm(q, d, st, <<>>, fnid))
+
+\* the multi-field hit of the small cases: tf and field-norm id per field, the term over per-field statistics
+HitOk(q, h, st) ==
+  LET d == cs.docs[h.doc]
+      fn == cs.fn[h.doc]
+      t == ScoreTermF(q, d, st, <<>>, fn)
+  IN  /\ Chk(\A f \in cs.fields : \A w \in cs.vocab : h.tfs[f][w] = Tf(d[f], w), "hit: term frequencies")
+      /\ Chk(\A f \in cs.fields : h.fnid[f] = fn[f], "hit: fieldnorm id")
+      /\ ScoresOk(h, t)
 
 TopOk(q, t, hits) ==
   /\ Chk(Len(t.res) = Min(t.k, Len(hits)), "topdocs: number of results")
@@ -170,10 +184,10 @@ RunOk(q, r) ==
   LET st == ix[r.ix].st IN
   /\ ix[r.ix].ok
   /\ Chk(r.N = st.N, "stats: total_num_docs is not the sum of max_doc over the segments")
-  /\ Chk(r.T = st.T, "stats: total_num_tokens is not the sum over the segments")
-  /\ Chk(\A w \in cs.vocab : r.df[w] = st.n[w], "stats: doc_freq is not the sum over the segments")
+  /\ Chk(\A f \in cs.fields : r.T[f] = st.T[f], "stats: total_num_tokens is not the sum over the segments")
+  /\ Chk(\A f \in cs.fields : \A w \in cs.vocab : r.df[f][w] = st.n[f][w], "stats: doc_freq is not the sum over the segments")
   /\ Chk(\A i \in 1..(Len(r.hits) - 1) : r.hits[i].doc < r.hits[i + 1].doc, "hits: not sorted / duplicate")
-  /\ Chk({r.hits[i].doc : i \in DOMAIN r.hits} = {d \in ix[r.ix].alive : Matches(q, cs.docs[d])},
+  /\ Chk({r.hits[i].doc : i \in DOMAIN r.hits} = {d \in ix[r.ix].alive : MatchesF(q, cs.docs[d])},
          "hits: the matching documents are not those the query means")
   /\ \A i \in DOMAIN r.hits : HitOk(q, r.hits[i], st)
   /\ \A j \in DOMAIN r.tops : TopOk(q, r.tops[j], r.hits)
@@ -238,7 +252,7 @@ TBReset ==
   /\ {i \in DOMAIN Ev.shapes : ~(SeqToSet(Ev.shapes[i].toks) \subseteq SeqToSet(Ev.vocab) /\ Ev.shapes[i].pad >= 0)} = {}
   /\ Ev.pattern # <<>> /\ SeqToSet(Ev.pattern) \subseteq DOMAIN Ev.shapes
   /\ Ev.nd >= 1
-  /\ cs' = [big |-> TRUE, shapes |-> Ev.shapes, pattern |-> Ev.pattern, nd |-> Ev.nd, vocab |-> SeqToSet(Ev.vocab),
+  /\ cs' = [big |-> TRUE, fields |-> {"body"}, shapes |-> Ev.shapes, pattern |-> Ev.pattern, nd |-> Ev.nd, vocab |-> SeqToSet(Ev.vocab),
             dels |-> {}, fn |-> [i \in DOMAIN Ev.shapes |-> NormId(tab, DocLen(Ev.shapes[i]))]]
   /\ ix' = [multi |-> NoIndex, single |-> NoIndex, merged |-> NoIndex]
 
